@@ -90,7 +90,7 @@ class Simulator:
                         if registers[26]:
                             self.accept_interrupt(registers, memory, pc)
                     else:
-                        next_int += frame_duration
+                        next_int = ((registers[25] + frame_duration - int_active) // frame_duration) * frame_duration
                 pc = registers[24]
                 if pc == stop:
                     break
